@@ -138,8 +138,10 @@ func newConn(h *Handler, s *xmpp.Session, iq openIQ, recv bool, maxBufSize int) 
 	}
 
 	return &Conn{
-		readBuf:        bytes.NewBuffer(make([]byte, 0, blockSize)),
-		readReady:      make(chan struct{}),
+		readBuf: bytes.NewBuffer(make([]byte, 0, blockSize)),
+		// One wake-up can be pending: a signal sent after a reader found the
+		// buffer empty but before it waits must not be lost.
+		readReady:      make(chan struct{}, 1),
 		s:              s,
 		writeBuf:       bufio.NewWriterSize(b64Writer, int(blockSize)),
 		closeFlushFunc: b64Writer.Close,
